@@ -138,6 +138,28 @@ def run(ctx):
                          "max_dt": float(np.max(np.diff(c.times))), "failures": bad[:2]})
         for what, detail in bad:
             viol.append((c, what, detail))
+    # 3-D, insulated, strongly temperature-dependent material, initial field steep along z, large steps: the bounds are
+    # those of the initial field, and they hold only as long as every row of every directional operator sums to zero
+    for n in range(6 if ctx.quick() else 60):
+        c = tc.gen_case(rng, ndim=3, inner="ins", outer="ins", steady=False, const_mat=False, nsteps=2)
+        c.nz = max(c.nz, 4)
+        c.mat_T = np.array([-20000.0, 400.0, 600.0, 800.0, 40000.0])
+        c.mat_k = np.array([20.0, 20.0, 20.0, 20.0, 20.0])
+        c.mat_a = np.array([2.0, 2.0, 40.0, 2.0, 2.0]) if n % 2 == 0 else np.array([40.0, 40.0, 1.0, 40.0, 40.0])
+        zprof = np.array([300.0, 900.0, 350.0, 850.0, 600.0, 320.0, 880.0])[:c.nz]
+        c.T0field = np.broadcast_to(zprof[None, None, :], (c.nr, c.nt, c.nz)).copy()
+        c.times = np.array([0.0, 64.0, 192.0]) * (1.0 if n % 3 else c.h ** 2 / 16.0)
+        c.substep = 1
+        try:
+            bad = check_case(c, substep=1)
+        except (RuntimeError, ValueError) as e:
+            ctx.notes.append("real solve raised (C17 / table range, not C06): %r" % (e,))
+            nraised += 1
+            continue
+        ctx.case(("real-axial", n), nontrivial=True, tag="real/3D/ins-ins/axial-Tdep",
+                 sample={"suite": "bounds on real solves (3D, T-dependent, axial profile)", "failures": bad[:2]})
+        for what, detail in bad:
+            viol.append((c, what, detail))
     # F17 probe
     f17 = tc.gen_case(rng, ndim=1, inner="flux", outer="ins", steady=False, const_mat=True, thick_ok=True, nsteps=1)
     f17.r, f17.t, f17.nr, f17.h = 1.0, 0.8, 2, 1.0
